@@ -48,6 +48,7 @@ type vJob struct {
 	Rounds int               `json:"rounds,omitempty"` // repeat the request list (concurrent mode)
 	WatchS int               `json:"watch_s,omitempty"`
 	Files  map[string]string `json:"files,omitempty"` // extra files written next to the module
+	Pre    []vReq            `json:"pre,omitempty"`   // requests issued one at a time before the (concurrent) main phase
 }
 
 type vResp struct {
@@ -59,6 +60,8 @@ type vResp struct {
 	Dropped bool   `json:"dropped,omitempty"`
 	Unsent  string `json:"unsent,omitempty"`
 	Trunc   bool   `json:"trunc,omitempty"`
+	T0      int64  `json:"t0,omitempty"` // call / return time of the request (ns since the job started), concurrent mode
+	T1      int64  `json:"t1,omitempty"`
 }
 
 type vOut struct {
@@ -72,6 +75,7 @@ type vOut struct {
 	Stacks   []string `json:"stacks,omitempty"`
 	ReqIndex int      `json:"req_index,omitempty"`
 	Gor      int      `json:"goroutines,omitempty"`
+	Pre      []vResp  `json:"pre,omitempty"`
 }
 
 var verifClockMs int64
@@ -139,6 +143,7 @@ func TestVerifWorker(t *testing.T) {
 
 func runVerifJob(job *vJob, tmp string, emit func(interface{})) *vOut {
 	out := &vOut{Ev: "result", ID: job.ID}
+	jobStart := time.Now()
 	for k, v := range job.Env {
 		if v == "\x00unset" {
 			os.Unsetenv(k)
@@ -275,7 +280,12 @@ func runVerifJob(job *vJob, tmp string, emit func(interface{})) *vOut {
 	// with two goroutine dumps and exits (the goroutine cannot be killed).
 	guarded := func(i int, rq *vReq) (vResp, bool) {
 		ch := make(chan vResp, 1)
-		go func() { ch <- do(rq) }()
+		go func() {
+			t0 := time.Since(jobStart).Nanoseconds()
+			r := do(rq)
+			r.T0, r.T1 = t0, time.Since(jobStart).Nanoseconds()
+			ch <- r
+		}()
 		select {
 		case r := <-ch:
 			return r, true
@@ -293,6 +303,14 @@ func runVerifJob(job *vJob, tmp string, emit func(interface{})) *vOut {
 		out.Stacks = []string{s1, s2}
 		out.ReqIndex = i
 		return vResp{}, false
+	}
+	for i := range job.Pre {
+		r, ok := guarded(-1-i, &job.Pre[i])
+		if !ok {
+			emit(out)
+			os.Exit(99)
+		}
+		out.Pre = append(out.Pre, r)
 	}
 	if job.Conc <= 1 {
 		for i := range job.Reqs {
